@@ -5,7 +5,8 @@ import subprocess, sys, os
 patch = os.path.abspath(sys.argv[1])
 ids = sys.argv[2:]
 ROOT = os.path.dirname(os.path.dirname(os.path.abspath(__file__)))
-def sh(c, **k): return subprocess.run(c, shell=True, stdout=subprocess.PIPE, stderr=subprocess.STDOUT, text=True, **k)
+ENV = dict(os.environ, VERIF_EVIDENCE_DIR=os.path.join(ROOT, "work", "mutant-evidence"))
+def sh(c, **k): return subprocess.run(c, shell=True, stdout=subprocess.PIPE, stderr=subprocess.STDOUT, text=True, env=ENV, **k)
 st = sh("git -C /repo status --porcelain").stdout.strip()
 if st:
     print("refusing: /repo has uncommitted changes:\n" + st); sys.exit(2)
